@@ -553,8 +553,8 @@ func buildReply(sc *Script, st Step, k ActKind, req ref.Envelope) []byte {
 		fs = append(fs, ref.F(2, ref.I32(version)), ref.F(3, ref.List(ref.TI32, feats...)))
 		if k == ActOKExtra {
 			fs = append(fs, ref.F(77, ref.Str("unknown field")), ref.F(-5, ref.List(ref.TStruct, ref.Struct())))
-		} else {
-			fs = append(fs, ref.F(4, ref.Str("1.2.3")))
+		} else if sc.Steps[st].N%3 != 1 {
+			fs = append(fs, ref.F(4, ref.Str("1.2.3"))) // libraryVersion is optional: two replies in three carry it
 		}
 		success = ref.Struct(fs...)
 	case StepGenerate:
